@@ -257,10 +257,9 @@ def flush_node(ctx: Ctx, chk) -> None:
         for c in cands:
             for cmp_ in ([c] if isinstance(c, ast.Compare) else [x for x in ast.walk(c) if isinstance(x, ast.Compare)]):
                 if len(cmp_.ops) == 1 and isinstance(cmp_.ops[0], ast.Eq):
-                    sides = [norm(cmp_.left), norm(cmp_.comparators[0])]
-                    msg = message_param(f)
-                    if f"{msg}.node_id" in sides:
-                        other = sides[1 - sides.index(f"{msg}.node_id")]
+                    sides = [cn.canon(cmp_.left), cn.canon(cmp_.comparators[0])]  # locals (`woken = message.node_id`) written out
+                    if "In.node_id" in sides:
+                        other = sides[1 - sides.index("In.node_id")]
                         if other.endswith(".node_id") or other.endswith("[0]"):
                             filt = cmp_
         if filt is None:
